@@ -16,20 +16,30 @@ namespace IrVerif.Device
 /-- **C19_step** (worlds with nested graphs): every operation of the alphabet — annotate (`shard`,
     `set_pipeline_stage`, valid or rejected), register / remove a configuration with cascade, rename,
     replace an input, resize inputs / outputs, append a node to a root graph or a subgraph, attach a
-    subgraph to a node, remove a node (with everything nested under it), clone (recursively, value map
-    shared across scopes), serialize -> deserialize (names resolved through all enclosing scopes) —
-    preserves `DevOK`, provided the in-alphabet condition `Pre` holds for it (ids exist; the
-    configuration of an annotation request is registered on the node's model with device indices
-    inside it; `cascade=True`; clone / round trip of a model whose node and graph lists are closed
-    under nesting; a clone that clones no value twice; a round trip at IR version >= 11 of a model
-    whose named values have unique names). -/
+    subgraph to a node, register an initializer, remove a node (with everything nested under it),
+    re-attach a removed node (also to another model), edit a shape, assign the annotation tuple of a
+    node or the configuration tuple of a model directly, clone (recursively, value map shared across
+    scopes, initializers included), serialize -> deserialize (names resolved through all enclosing
+    scopes) — preserves `DevOK`, provided the in-alphabet condition `Pre` holds for it: ids exist; the
+    configuration of an annotation request is registered on the node's model (`shard` cannot check
+    that: a node does not reach its model; known finding D192); `cascade=True`; a node is re-attached
+    only where the configurations it references are registered; a shape is edited only on a value that
+    is not sharded; a directly assigned tuple is itself well formed; clone / round trip of a model
+    whose node and graph lists are closed under nesting; a clone that clones no value twice; a round
+    trip at IR version >= 11 of a model whose named values have unique names. -/
 theorem C19_step (w : World) (op : Op) (h : DevOK w) (hpre : Pre w op) : DevOK (step w op).1 := by
+  rw [step_eq_stepD]
   cases op with
   | newModel ir => exact DevOK_newModel h ir
   | newInput m name shape => exact DevOK_newInput h m name shape
   | newSubgraph n => exact DevOK_newSubgraph h n
   | newNode m ins outs => exact DevOK_newNode h m ins outs hpre
   | removeNode m n safe => exact DevOK_removeNode h m n safe
+  | attachNode g n => exact DevOK_attachNode h g n hpre
+  | newInit g name shape => exact DevOK_newInit h g name shape
+  | setShape v shape => exact DevOK_setShape h v shape hpre
+  | setDev n dev => exact DevOK_setDev h n dev hpre
+  | setModelCfgs m cfgs => exact DevOK_setModelCfgs h m cfgs hpre
   | rename v s => exact DevOK_rename h v s
   | addCfg m name num names => exact DevOK_addCfg h m name num names
   | removeCfg m r cascade =>
@@ -121,8 +131,9 @@ theorem C19_checker_silent (w : World) (h : DevOK w) (hn : Named w) (m : MId) : 
     node), and no other node is touched. -/
 theorem C19_drop (w : World) (h : DevOK w) (op : Op) (n : NId) (hop : op.detaches = some n) :
     ((step w op).1.node n).dev = keepIO ((step w op).1.node n) (w.node n).dev ∧
-    ∀ k, k ≠ n → (step w op).1.node k = w.node k :=
-  drop_exact (fun n => h.specs_io n) op n hop
+    ∀ k, k ≠ n → (step w op).1.node k = w.node k := by
+  rw [step_eq_stepD]
+  exact drop_exact (fun n => h.specs_io n) op n hop
 
 /-- `keepIO` spelled out -/
 example (nd' : NodeS) (dev : List NodeCfg) : keepIO nd' dev =
@@ -139,21 +150,44 @@ example :
 
 /-! ### C19_reject_atomic -/
 
+/-- **C19_checks_precede_writes**: every operation that can raise after touching an existing
+    object (`shard`, `set_pipeline_stage`, `add_/remove_device_configuration`, `replace_input_with`,
+    `resize_outputs`, `Graph.remove`, `Graph.append` of an existing node, `register_initializer`,
+    `Value.name=`) is modelled as the Python-ordered sequence of its checks and writes (`progOf`), run
+    by `runMicro` *without roll-back*: a failing check returns the state reached so far.  In every such
+    program no check comes after a write. -/
+theorem C19_checks_precede_writes (op : Op) (p : List Micro) (h : progOf op = some p) : ChecksFirst p :=
+  progOf_checksFirst op p h
+
 /-- **C19_reject_atomic**: (1) whenever an operation of the alphabet raises, the world is
-    unchanged; (2) `shard` raises exactly for the invalid requests (value not on the node, fewer than
-    one shard, negative stage, axis out of range for a known rank, axis repeated after
-    normalisation for the same (configuration, value), conflicting stage); (3) `set_pipeline_stage`
-    raises exactly for a negative stage. -/
+    unchanged — for the micro-step programs because of `C19_checks_precede_writes` (the interpreter
+    itself does not restore anything); the remaining operations that can raise, clone and round
+    trip, only ever create new objects and return the untouched world on a raise; (2) `shard` raises
+    exactly for the invalid requests (value not on the node, fewer than one shard, negative stage,
+    a device index outside the configuration,
+    axis out of range for a known rank, axis repeated after normalisation for the same
+    (configuration, value), conflicting stage); (3) `set_pipeline_stage` raises exactly for a
+    negative stage. -/
 theorem C19_reject_atomic (w : World) (h : DevOK w) :
     (∀ op, (step w op).2 = .raised → (step w op).1 = w) ∧
     (∀ n v c axis k devs stage,
-      (step w (.shard n v c axis k devs stage)).2 = .raised ↔ ShardInvalid w n v c axis k stage) ∧
+      (step w (.shard n v c axis k devs stage)).2 = .raised ↔ ShardInvalid w n v c axis k devs stage) ∧
     (∀ n c stage, (step w (.setStage n c stage)).2 = .raised ↔ stage < 0) := by
-  refine ⟨fun op => step_raised_same w op, ?_, ?_⟩
+  refine ⟨?_, ?_, ?_⟩
+  · intro op hr
+    cases hp : progOf op with
+    | some p =>
+      simp only [step, hp] at hr ⊢
+      exact runMicro_atomic p w (progOf_checksFirst op p hp) hr
+    | none =>
+      simp only [step, hp] at hr ⊢
+      exact stepD_raised_same w op hr
   · intro n v c axis k devs stage
+    rw [step_eq_stepD]
     exact shard_raised_iff n v c axis k devs stage (h.node n)
   · intro n c stage
-    simp only [step, setStage]
+    rw [step_eq_stepD]
+    simp only [stepD, setStage]
     split <;> simp_all
 
 /-- non-vacuity: each kind of invalid request occurs and is rejected -/
@@ -170,16 +204,13 @@ example :
     (step w (.shard 0 0 0 0 2 [1] none)).2 = .ok := by
   decide
 
-/-! ### C19_names_current -/
+/-! ### serialization
 
-/-- **C19_names_current**: whenever the device fields of a model serialize (IR version >= 11),
-    every `configuration_id` is the *current* name of the referenced configuration object and every
-    `tensor_name` is the *current* name of the referenced value (`cfgProto` / `specProto` read the
-    names from the world at serialization time); in particular a rename is followed. -/
-theorem C19_names_current (w : World) (m : MId) (protos : List (List PCfg))
-    (h : serModelDev w m = some protos) (hir : 11 ≤ (w.model m).irVersion) :
-    protos = (w.model m).nodes.map (fun n => (w.node n).dev.map (cfgProto w)) :=
-  serModelDev_eq h hir
+That serialized `tensor_name` / `configuration_id` are the *current* names holds by construction of the
+model (references are identity-bound, `serSpec` / `serCfg` read the names from the world at
+serialization time): `serModelDev_eq` in `Lemmas/Device.lean`.  It is not counted as a property
+theorem; what ties it to the code is the correspondence, which compares the serialized fields of
+every model after every operation (renames included), and the oracle `oracle_names_current`. -/
 
 /-- **C19_roundtrip_faithful**: a successful in-alphabet round trip (`DevOK`, IR version >= 11, closed
     lists, unique names of named values; serialization succeeding means every sharded value is named)
@@ -210,14 +241,9 @@ example (w w' : World) (nd nd' : NodeS) : NodeRel w w' nd nd' =
         s'.device = s.device ∧ s'.dims = s.dims) nc.specs nc'.specs) nd.dev nd'.dev := rfl
 
 /-- **C19_serializable**: with `DevOK` and named sharded values, serialization of the device fields
-    does not raise (so `C19_names_current` applies). -/
+    does not raise. -/
 theorem C19_serializable (w : World) (h : DevOK w) (hn : Named w) (m : MId) :
     ∃ protos, serModelDev w m = some protos :=
   serModelDev_some h hn m
-
-/-- after `value.name = s` the name read by serialization is `s` -/
-theorem C19_rename_followed (w : World) (v : VId) (s : String) (hv : v < w.values.length) (sp : Spec)
-    (hsp : sp.value = v) : (specProto (rename w v s).1 sp).tensor = s := by
-  simp [specProto, rename, hsp, World.value, List.getD_eq_getElem?_getD, hv]
 
 end IrVerif.Device
